@@ -28,7 +28,7 @@ def flat_stage(rng):
                        ['batch', 1], ['batch', 2], ['batch', 3], ['to_list'], ['identity'], ['count', True]])
 
 
-def cases(tier, rng):
+def _cases(tier, rng):
     yield {'kind': 'mux', 'term': [['batch', 1]], 'items': [1, 2, 3]}
     yield {'kind': 'mux', 'term': [['roll', 3, 2, [['count', True]]]], 'items': [1, 2, 3, 4, 5]}
     # None / falsy items at every position relative to a batch, window, lag or pad boundary (per-item timing must not depend on values)
@@ -97,7 +97,7 @@ def window_positions(st, xs):
     return out
 
 
-def oracle(case, r):
+def _oracle(case, r):
     if 'harness_exc' in r:
         return 'real code raised: ' + r['harness_exc']
     if r.get('raised') or muxprop.has_fatal(r['chunks']) or case['kind'] != 'mux':
@@ -169,3 +169,14 @@ tags = muxprop.tags
 
 def violation_class(case, text):
     return [s[0] for s in case['term']][0]
+
+
+def cases(tier, rng):
+    """every case of `_cases`, and for a fraction of the mux/plain ones the same case run as the SECOND subscription of
+    its pipeline object (after an earlier subscription that completed, failed or was disposed)"""
+    pr = rng.sub('resubscription')
+    return muxprop.with_preludes(_cases(tier, rng), pr)
+
+
+def oracle(case, r):
+    return muxprop.prelude_violation(case, r) or _oracle(case, r)
